@@ -887,9 +887,9 @@ async fn run_behaviour(net: &mut Net, case: &Value, idx: usize, seed: u64, out: 
     for (k, st) in steps.iter().enumerate() {
         ads.push(st.ad);
         let mut result = String::new();
-        // an inbound action is a burst of `rep` packets of its class (each concretised anew); the sinks are drained
+        // a traffic action is a burst of `rep` packets of its class (each concretised anew); the sinks are drained
         // between the packets (bounded channels), the wire is read once after the burst
-        let burst = if st.op.starts_with('R') { rep } else { 1 };
+        let burst = if st.op.starts_with('R') || matches!(st.op.as_str(), "S" | "SR" | "SC" | "BYE") { rep } else { 1 };
         let mut r = Ok(());
         let mut how = String::new();
         for b in 0..burst {
